@@ -18,6 +18,9 @@ GATES = [(U + "transitive_closure", "A"), (U + "mec", "A"), (U + "imec", "A"), (
          (U + "to_factorization", "G"), (U + "order_edges", "G"), (U + "label_edges", "ordered")]
 
 
+FULL_ = ("slice", ("const", None), ("const", None), ("const", None))
+
+
 def kahn_rules(rep, prog, f, S):
     """shape of Kahn's algorithm: sources = zero in-degree; pop -> emit once; remove the out-edges of the emitted
     node; a child becomes ready when it has no parent left *in the updated matrix*; leftover edges => ValueError.
@@ -32,7 +35,11 @@ def kahn_rules(rep, prog, f, S):
         return
     (lw, w), (lf, fo) = whiles[0], fors[0]
     state = w["init"]
-    mats = [k for k, v in state.items() if v[0] == "method" and v[2] == "copy" or derives_patternwise(v, "A") and v != ("list", ())]
+    def listlike(v):
+        # an index list: list(...) / sorted(...) / np.where(...)[0] / np.flatnonzero(...) / x.tolist()
+        return (v[0] == "ext" and v[1] in ("list", "sorted", "numpy.flatnonzero", "collections.deque")) or \
+            (v[0] == "sub" and v[1][0] == "ext" and v[1][1] in ("numpy.where", "numpy.nonzero")) or (v[0] == "method" and v[2] == "tolist")
+    mats = [k for k, v in state.items() if not listlike(v) and (v[0] == "method" and v[2] == "copy" or derives_patternwise(v, "A") and v != ("list", ()))]
     lists = [k for k, v in state.items() if v == ("list", ())]
     work = [k for k in state if k not in mats and k not in lists]
     if len(mats) == 0 and len(lists) == 1 and len(work) == 1:
@@ -45,12 +52,42 @@ def kahn_rules(rep, prog, f, S):
     muA, muW, muO = ("mu", lw, A_), ("mu", lw, wl_), ("mu", lw, out_)
     # K1 sources
     src = state[wl_]
-    while src[0] == "ext" and src[1] in ("list", "sorted") and len(src[2]) == 1:
+    while src[0] == "ext" and src[1] in ("list", "sorted", "collections.deque") and len(src[2]) == 1:
         src = src[2][0]
     ok, why = False, "initial work list is %s" % fmt(state[wl_])[:100]
-    if src[0] == "sub" and is_const(src[2], 0) and src[1][0] == "ext" and src[1][1] == "numpy.where" and len(src[1][2]) == 1:
+    cond = None
+    if src[0] == "sub" and is_const(src[2], 0) and src[1][0] == "ext" and src[1][1] in ("numpy.where", "numpy.nonzero") and len(src[1][2]) == 1:
         cond = src[1][2][0]
+    elif src[0] == "ext" and src[1] == "numpy.flatnonzero" and len(src[2]) == 1:
+        cond = src[2][0]
+    if cond is not None:
         pn = npred(cond, True)
+        # `no non-zero entry in the column`:  ~X.any(axis=0)  /  np.logical_not(X.any(axis=0))  /  X.any(axis=0) == False
+        neg_any = None
+        c_ = cond
+        if c_[0] == "unop" and c_[1] in ("~", "not", "invert"):
+            neg_any = c_[2]
+        elif c_[0] == "ext" and c_[1] == "numpy.logical_not" and len(c_[2]) == 1:
+            neg_any = c_[2][0]
+        elif pn[0] == "atom" and pn[2] is False:
+            neg_any = pn[1]
+        if neg_any is not None:
+            try:
+                from .. import signs
+                good = True
+                for pair in PW.ALL9:
+                    v = PW.Eval({("param", "A"): PW.M(PW.mat(pair))}, {}).ev(neg_any)
+                    if not isinstance(v, PW.CNT) or v.kind not in ("axis0", "any-axis0"):
+                        good = False
+                        why = "sources are not the nodes without a non-zero entry in their column: %s" % (v.kind if isinstance(v, PW.CNT) else type(v).__name__)
+                        break
+                    ij, ji = v.m.d["*"]
+                    if PW.nzb(ij) is not (pair[0] != signs.Z):
+                        good = False
+                        why = "the tested indicator is not the edge pattern"
+                ok = good
+            except Inconclusive as e:
+                why = e.why
         if pn[0] == "==0":
             d = dict(pn[1])
             if len(d) == 1 and list(d.values())[0] in (1, -1):
@@ -81,7 +118,7 @@ def kahn_rules(rep, prog, f, S):
     rep.check("KAHN.emit", ok, fwhere(f, w["node"]), "each round pops one node from the work list and appends exactly that node to the ordering",
               "the emitted node is not the popped node: ordering' = %s" % fmt(nxO)[:100])
     pt = npred(w["test"], True)
-    rep.check("KAHN.loop", pt == ("nonempty", muW), fwhere(f, w["node"]), "runs while the work list is non-empty", "loop condition is %s" % pred_fmt(pt))
+    rep.check("KAHN.loop", pt in (("nonempty", muW), ("atom", muW, True)), fwhere(f, w["node"]), "runs while the work list is non-empty", "loop condition is %s" % pred_fmt(pt))
     if not ok:
         return
     # K3 relax
@@ -94,9 +131,14 @@ def kahn_rules(rep, prog, f, S):
     if oks:
         updated = ("store", sts[0].base, sts[0].idx, sts[0].value, None)
         apps = [c for c in S.select("call", root=q) if c.callkind == "method" and c.target == ".append" and lf in c.loops]
-        ready = ("empty", ("call", U + "pa", (j, updated), (("A", updated), ("i", j))))
+        pa_j = ("call", U + "pa", (j, updated), (("A", updated), ("i", j)))
+        col = ("sub", updated, ("tuple", (FULL_, j)))
+        # `no parent left`: the parent set is empty, or column j of the (0/1, updated) matrix has no non-zero entry
+        ready_forms = [("empty", pa_j), ("atom", pa_j, False), ("atom", ("method", col, "any", (), ()), False), ("atom", ("ext", "numpy.any", (col,), ()), False),
+                       ("==0", (((("method", col, "sum", (), ()),), 1),)), ("==0", (((("ext", "numpy.sum", (col,), ()),), 1),)),
+                       ("==0", (((("ext", "numpy.count_nonzero", (col,), ()),), 1),))]
         okr = len(apps) == 1 and apps[0].args == [j] and apps[0].recv[0] == "mu" and apps[0].recv[2] == wl_ and apps[0].path and \
-            apps[0].path[-1][1] is True and npred(apps[0].path[-1][0], True) == ready
+            apps[0].path[-1][1] is True and npred(apps[0].path[-1][0], True) in ready_forms
         rep.check("KAHN.ready", okr, fwhere(f, apps[0].node if apps else None), "a child joins the work list exactly when it has no parent left in the *updated* matrix",
                   "readiness test is not `len(pa(j, updated A)) == 0` followed by sinks.append(j)")
     # K4 leftover: either "entries are left in the working matrix" or "fewer nodes emitted than there are"
